@@ -18,6 +18,7 @@ Line skeletons (C13 oracle b, C39): {"lines": [...], "final_nl": bool} with line
     ["L", indent, [inline segments], None | [hws, body]]    text line, optional trailing comment
     ["S", indent, stmt]                                      whole-line statement
     ["C", indent, body]                                      whole-line comment
+    ["B", ws]                                                whitespace-only line (C39 only)
 translated by ``block_form`` / ``line_form`` into concrete skeletons.
 """
 import itertools
@@ -280,7 +281,10 @@ LINE_ENDERS = ["a", "x.", "é", ";", "b:"]
 LINE_VARS = [(e, v) for e, v in VAR_EXPRS]
 
 
-def line_skeletons(max_lines=7, foreign=False):
+BLANKS = ["", " ", "  \t", "\x0c"]
+
+
+def line_skeletons(max_lines=7, foreign=False, blank=False):
     inline_text = _texts(ALPHA_X_INLINE, 3).map(lambda s: ["text", s])
     var = st.tuples(st.sampled_from(MODS2), st.sampled_from(MODS2), _padded(st.sampled_from(LINE_VARS), PADS)).map(
         lambda t: ["var", t[0], t[1], t[2][0] + t[2][1][0] + t[2][2], t[2][1][1]])
@@ -305,7 +309,10 @@ def line_skeletons(max_lines=7, foreign=False):
 
     P = st.tuples(st.sampled_from(INDENTS), st.sampled_from(INDENTS), st.sampled_from(LINE_PAIRS), st.sampled_from([" ", "  ", ""]),
                   st.lists(st.one_of(L, S, C), max_size=3)).map(mk_pair)
-    lines = st.lists(st.one_of(L, L, S, C, P, P), min_size=1, max_size=max_lines).map(lambda items: [x for item in items for x in item])
+    top = [L, L, S, C, P, P]
+    if blank:  # whitespace-only lines (not generated for the line-statement equivalence, see DESIGN C13)
+        top.append(st.sampled_from(BLANKS).map(lambda w: [["B", w]]))
+    lines = st.lists(st.one_of(top), min_size=1, max_size=max_lines).map(lambda items: [x for item in items for x in item])
     return st.builds(lambda ls, nl: {"lines": ls, "final_nl": nl}, lines, st.booleans())
 
 
@@ -323,6 +330,8 @@ def _line_common(lsk, stmt_seg, comment_seg, trailing_seg):
             out.extend(stmt_seg(line[1], line[2]))
         elif k == "C":
             out.extend(comment_seg(line[1], line[2]))
+        elif k == "B":
+            out.append(["text", line[1]])
         else:
             raise ValueError(k)
         if i < n - 1 or lsk["final_nl"]:
@@ -392,4 +401,23 @@ def long_texts(max_size=2000):
         st.characters(exclude_categories=["Cs"]),
         st.sampled_from(["\n", "\r", "\r\n", " ", "\t", "{", "}", "%", "#", "\x0c", "\x85", "\u2028", " ", "\x00", "\x1c"]),
     )
-    return st.lists(chars, max_size=max_size).map("".join).map(_defuse)
+    sizes = st.one_of(st.lists(chars, max_size=40), st.lists(chars, min_size=40, max_size=max_size // 4),
+                      st.lists(chars, min_size=max_size // 4, max_size=max_size))
+    return sizes.map("".join).map(_defuse)
+
+
+# ------------------------------------------------------------------------------------------
+# C39: arbitrary fragment soup (the oracle only judges sources that lex without TemplateSyntaxError)
+
+def fragment_soup(syn, max_frags=14):
+    frags = []
+    for k in ("bs", "vs", "cs"):
+        frags += [syn[k], syn[k] + "-", syn[k] + "+", syn[k] + " ", "  " + syn[k] + "-", "\n " + syn[k], " \n\n" + syn[k] + "- "]
+    for k in ("be", "ve", "ce"):
+        frags += [syn[k], "-" + syn[k], "+" + syn[k], " " + syn[k]]
+    frags += [" raw ", " endraw ", "raw", "endraw", "\n", "\n", "\r\n", "\r", " ", "  ", "\t", "a", "x.y", "'s'", "'a\nb'", '"', "'", "[", "]", "(", ")",
+              "{", "}", "1", "1.5", "|f", " if x ", " endif ", " set z = 1 ", "-", "+", "\x0c", "\xa0", "\\", "\n\n  ", " \n", "=", "~"]
+    for k in ("ls", "lc"):
+        if syn.get(k):
+            frags += [syn[k], "\n" + syn[k], "\n  " + syn[k] + " ", syn[k] + "-"]
+    return st.lists(st.sampled_from(frags), min_size=1, max_size=max_frags).map("".join)
